@@ -40,6 +40,8 @@ def c04_classify(c, i):
         for b in bl:
             if b and b[0].startswith("b") and "gate" in b:
                 out.append("back-inside-window"); break
+    elif c[0] == "c04.hbstress":
+        out.append("real-heartbeat-goroutine")
     elif c[0] == "c04.burst":
         out.append("pool=" + c[1])
     elif c[0] == "c04.stream":
@@ -48,6 +50,47 @@ def c04_classify(c, i):
         for k in ("pop", "att", "leave", "det", "to", "park", "bwait", "stale"):
             if k in i: out.append("op:" + k)
     return out
+
+
+# ---------------------------------------------------------------- source fact
+# VerifStreamer.Heartbeat (pipeline/export_verif_c04.go) is a copy of one iteration of streamer.heartbeat's
+# loop (which cannot be called without its Sleep and endless loop). The fact: both, comments and blanks
+# removed, are the same statements (the hook additionally counts the time-outs). A change of the real loop
+# breaks the tie; the stress family c04.hbstress runs the real goroutine.
+import os as _os, re as _re
+
+
+def _strip_go(src):
+    src = _re.sub(r"/\*.*?\*/", "", src, flags=_re.S)
+    src = _re.sub(r"//[^\n]*", "", src)
+    return [_re.sub(r"\s+", " ", l).strip() for l in src.split("\n") if l.strip()]
+
+
+def fact_heartbeat_iteration(repo):
+    d = _os.path.join(repo, "pipeline")
+    real = _strip_go(open(_os.path.join(d, "streamer.go")).read())
+    raw = open(_os.path.join(d, "export_verif_c04.go")).read()
+    try:
+        a = real.index("func (s *streamer) heartbeat() {")
+        a = real.index("for {", a)
+        e = real.index("func (s *streamer) dump() string {", a)
+        # loop body = lines after the shouldStop test up to the two closing braces of loop and func
+        k = real.index("if s.shouldStop.Load() {", a)
+        body = real[k + 3:e]
+        while body and body[-1] == "}":
+            body.pop()
+        body.append("}")  # the range loop's own brace
+        ha = raw.index("// heartbeat-iteration-begin")
+        hb = raw.index("// heartbeat-iteration-end")
+        hook = _strip_go(raw[ha:hb])
+    except ValueError as ex:
+        return False, "heartbeat loop / hook not found in the expected shape: %s" % ex
+    txt = " ".join(hook).replace("if stream.tryUnblock() { n++ }", "stream.tryUnblock()")
+    if " ".join(body) != txt:
+        return False, "streamer.heartbeat iteration differs from VerifStreamer.Heartbeat: real=%r hook=%r" % (" ".join(body), txt)
+    if "go s.heartbeat()" not in real:
+        return False, "streamer.start no longer runs heartbeat"
+    return True, ""
 
 
 CFG = {
